@@ -29,30 +29,6 @@ Boolean function is that truth table -/
 theorem c07_tt_table_is_correct {a b c d : Bool} {ty : GateType} (h : Gen.ttType a b c d = some ty) (x y : Bool) :
     tyOk ty 2 = true ∧ bfun ty [x, y] = some (ttApply (a, b, c, d) x y) := ⟨ttType_ok h, ttType_sem h x y⟩
 
-/-- running a program on a host: every valuation of the host extends to one of the result that
-agrees on the host and satisfies the program's gate equations -/
-theorem run_total {α} {p : Prog α} {st st' : GSt} {a : α} (h : p.run st = .ok (a, st')) (hw : WFS st.c)
-    {b v : Label → Bool} (hv : IsValB st.c b v) :
-    ∃ v', IsValB st'.c b v' ∧ (∀ l ∈ st.c.labels, v' l = v l) ∧ Sem p v' a := by
-  obtain ⟨v', hv', hag⟩ := (run_frame p h hw).ext b v hv
-  exact ⟨v', hv', hag, run_sound p h b v' hv'⟩
-
-theorem cnt_congr {v v' : Label → Bool} {ls : List Label} (h : ∀ l ∈ ls, v' l = v l) : cnt v' ls = cnt v ls := by
-  unfold cnt; congr 1; apply List.map_congr_left; intro l hl; simp [bv, h l hl]
-
-theorem valLE_congr {v v' : Label → Bool} {ls : List Label} (h : ∀ l ∈ ls, v' l = v l) : valLE v' ls = valLE v ls := by
-  induction ls with
-  | nil => rfl
-  | cons x r ih =>
-    simp only [valLE, bv, h x (by simp)]
-    rw [ih (fun l hl => h l (by simp [hl]))]
-
-theorem wsum_congr {v v' : Label → Bool} {ls : List (Nat × Label)} (h : ∀ p ∈ ls, v' p.2 = v p.2) : wsum v' ls = wsum v ls := by
-  unfold wsum; congr 1; apply List.map_congr_left; intro p hp; simp [bv, h p hp]
-
-theorem mem_revIf {l : List Label} {be : Bool} {x : Label} : x ∈ revIf l be ↔ x ∈ l := by
-  cases be <;> simp [revIf]
-
 /-- **`add_sum_n_bits`** on arbitrary gates of a host, any basis spelling, both endiannesses: the
 host keeps its function and the returned bits encode the number of true operand bits. -/
 theorem c07_sum_n_bits {st st' : GSt} {ins out : List Label} {basis : BasisArg} {be : Bool}
